@@ -31,8 +31,9 @@ TrThreads == {1}
 TrModes == {"keep", "read"}
 TrDev == {}
 
-VARIABLES tid, l
-tvars == <<cache, np, owner, th, pool, sock, resp, hand, gen, got, nops, hist, tid, l>>
+VARIABLES tid, l,
+          dirty     \* pools that served / released / lost a response since the last observation
+tvars == <<cache, np, owner, th, pool, sock, resp, hand, gen, got, nops, hist, tid, l, dirty>>
 
 SeqToSet(s) == {s[i] : i \in 1..Len(s)}
 
@@ -42,9 +43,9 @@ Fresh == /\ cache = <<>> /\ owner = 0
          /\ hand = [h \in Ids |-> 0]
          /\ gen = [k \in Origins |-> 0] /\ got = {} /\ nops = 0 /\ hist = <<>>
 
-TInit == Fresh /\ tid = 1 /\ l = 1 /\ np = IF Len(Traces) > 0 THEN Traces[1].np ELSE 0
+TInit == Fresh /\ tid = 1 /\ l = 1 /\ dirty = {} /\ np = IF Len(Traces) > 0 THEN Traces[1].np ELSE 0
 
-NextTrace == /\ tid' = tid + 1 /\ l' = 1
+NextTrace == /\ tid' = tid + 1 /\ l' = 1 /\ dirty' = {}
              /\ np' = IF tid + 1 <= Len(Traces) THEN Traces[tid + 1].np ELSE 0
              /\ cache' = <<>> /\ owner' = 0
              /\ th' = [t \in Threads |-> IdleTh]
@@ -78,15 +79,26 @@ EvClause(e) ==
     ELSE IF e.op = "hsend" THEN (IF ~e.ok /\ IsCached(cache, e.p) THEN "CachedPoolNeverClosed" ELSE "ok")
     ELSE IF e.op = "fin" THEN (IF ~e.ok THEN "InFlightResponseFinishes" ELSE "ok")
     ELSE IF e.op = "clear" THEN (IF e.n # 0 \/ e.cached # <<>> THEN "ClearEmptiesCache" ELSE "ok")
+    ELSE IF e.op = "gc" THEN
+        LET seen == SeqToSet(e.open)
+            gone == Garbage(cache, pool, resp, hand, th) IN
+        IF \E r \in Ids : resp[r].st = "inflight" /\ resp[r].s \notin seen THEN "InFlightResponseFinishes"
+        ELSE IF \E s \in Ids : /\ sock[s].role # "none" /\ sock[s].open /\ s \notin seen
+                                /\ IsCached(cache, sock[s].p) /\ sock[s].p \notin dirty THEN "CachedPoolNeverClosed"
+        ELSE IF \E s \in Ids : sock[s].role # "none" /\ sock[s].p \in gone /\ s \in seen
+             THEN "EvictedPoolSocketsClosedWhenUnused"
+        ELSE "ok"
     ELSE "ok"
 
 \* the state after the event, from the logged fields
 CacheAfter(e) == IF IsGoc(e) THEN GocRef(e).order ELSE IF e.op = "clear" THEN <<>> ELSE cache
 PoolAfterGoc(e) == IF IsGoc(e) /\ pool[e.p].st = "none"
                    THEN [pool EXCEPT ![e.p] = [k |-> e.k, st |-> "live", closed |-> FALSE]] ELSE pool
+\* the socket the request went over is a logged fact; what happens to the queue follows the model
 SockAfterSend(e, pl) ==
     IF ~e.ok THEN sock
-    ELSE LET sk1 == [sock EXCEPT ![e.s] = [p |-> e.p, role |-> "leased", open |-> TRUE]] IN
+    ELSE LET co == Checkout(sock, e.p, e.s)
+             sk1 == [co.sock EXCEPT ![e.s] = [p |-> e.p, role |-> "leased", open |-> TRUE]] IN
          IF e.mode = "read" THEN ReleaseSock(sk1, pl, e.s) ELSE sk1
 RespAfterSend(e) ==
     [resp EXCEPT ![e.ref] = [p |-> e.p, s |-> IF e.ok THEN e.s ELSE 0,
@@ -98,8 +110,7 @@ Soft(e) ==
         IF OpenSet(x.sock) # SeqToSet(e.open) THEN "OpenSockets"
         ELSE IF LiveSet(x.pool) # SeqToSet(e.live) THEN "LivePools" ELSE "ok"
     ELSE IF e.op = "hsend" /\ ~e.ok THEN "HandleRequestOnEvictedPool"
-    ELSE IF IsSend(e) /\ e.ok /\ sock[e.s].role # "none" /\ ~(e.s \in IdleSocks(sock, e.p)) THEN "SocketChoice"
-    ELSE IF IsSend(e) /\ e.ok /\ sock[e.s].role = "none" /\ IdleSocks(sock, e.p) # {} THEN "SocketChoice"
+    ELSE IF IsSend(e) /\ e.ok /\ Checkout(sock, e.p, e.s).s # e.s THEN "SocketChoice"
     ELSE "ok"
 
 Step(e) ==
@@ -122,8 +133,12 @@ Step(e) ==
             /\ sock' = IF IsSend(e) THEN SockAfterSend(e, pl2)
                        ELSE IF e.op = "fin" /\ resp[e.ref].st = "inflight" THEN ReleaseSock(sock, pool, resp[e.ref].s)
                        ELSE IF e.op = "dropr" /\ resp[e.ref].st = "inflight"
-                            THEN [sock EXCEPT ![resp[e.ref].s].role = "disc", ![resp[e.ref].s].open = FALSE]
+                            THEN ReleaseSock([sock EXCEPT ![resp[e.ref].s].open = FALSE], pool, resp[e.ref].s)
                        ELSE sock
+    /\ dirty' = IF e.op = "gc" THEN {}
+                ELSE IF IsSend(e) THEN dirty \cup {e.p}
+                ELSE IF e.op \in {"fin", "dropr"} THEN dirty \cup {resp[e.ref].p}
+                ELSE dirty
     /\ UNCHANGED <<np, owner, th, nops, hist>>
 
 TNext ==
